@@ -1289,6 +1289,35 @@ def check_digests(prop, tier, seed):
         if len(variants) > 1:
             for _ in range(10 if tier == "quick" else 100):
                 add("digest_variants", fam, {v: tmpl.replace("VAR", v).format(".x") for v in variants}, {"x": lb(rb(rnd.randint(0, 40)))})
+    # md5 / sha1 / sha2 against the bit-level model (Sha.tla), one compression round per TLC step
+    PUB = {("md5", ""): "d41d8cd98f00b204e9800998ecf8427e", ("md5", "abc"): "900150983cd24fb0d6963f7d28e17f72", ("md5", "message digest"): "f96b697d7cb7938d525a2f31aaf161d0",
+           ("sha1", ""): "da39a3ee5e6b4b0d3255bfef95601890afd80709", ("sha1", "abc"): "a9993e364706816aba3e25717850c26c9cd0d89d",
+           ("SHA-224", ""): "d14a028c2a3a2bc9476102bb288234c415a2b01f828ea62ac5b3e42f", ("SHA-224", "abc"): "23097d223405d8228642a477bda255b32aadbce4bda0b3f7e36c9da7",
+           ("SHA-256", ""): "e3b0c44298fc1c149afbf4c8996fb92427ae41e4649b934ca495991b7852b855", ("SHA-256", "abc"): "ba7816bf8f01cfea414140de5dae2223b00361a396177a9cb410ff61f20015ad",
+           ("SHA-384", ""): "38b060a751ac96384cd9327eb1b1e36a21fdb71114be07434c0cc7bf63f6e1da274edebfe76f65fbd51ad2f14898b95b",
+           ("SHA-384", "abc"): "cb00753f45a35e8bb5a03d699ac65007272c32ab0eded1631a8b605a43ff5bed8086072ba1e7cc2358baeca134c825a7",
+           ("SHA-512", ""): "cf83e1357eefb8bdf1542850d66d8007d620e4050b5715dc83f4a921d36ce9ce47d0d13c5d85f2b0ff8318d2877eec2f63b931bd47417a81a538327af927da3e",
+           ("SHA-512", "abc"): "ddaf35a193617abacc417349ae20413112e6fa4e89a97ea20a9eeee64b55d39a2192992a274fc1a836ba3c23a3feebbd454d4423643ce80e2a9ac94fa54ca49f"}
+    EXPR = {"md5": "md5!(.x)", "sha1": "sha1!(.x)", "SHA-224": 'sha2!(.x, variant: "SHA-224")', "SHA-256": 'sha2!(.x, variant: "SHA-256")',
+            "SHA-384": 'sha2!(.x, variant: "SHA-384")', "SHA-512": 'sha2!(.x, variant: "SHA-512")'}
+    for (f, m), h in PUB.items():
+        add("sha", f, {}, {"f": f, "x": lstr(m), "want": lstr(h), "published": True})
+    for f, e in EXPR.items():
+        block = 128 if f in ("SHA-384", "SHA-512") else 64
+        lens = ([0, 3, block - 9 - (8 if block == 128 else 0), block - 8 - (8 if block == 128 else 0), block] if tier == "quick" else
+                [0, 1, 3, block - 9 - (8 if block == 128 else 0), block - 8 - (8 if block == 128 else 0), block - 1, block, block + 1]) + [rnd.randint(2, 150) for _ in range(2 if tier == "quick" else 25)]
+        for n in lens:
+            add("sha", f, {"out": e}, {"f": f, "x": lb(rb(max(0, n))), "published": False})
+    PUB3 = {("SHA3-224", ""): "6b4e03423667dbb73b6e15454f0eb1abd4597f9a1b078e3f5b5a6bc7", ("SHA3-256", ""): "a7ffc6f8bf1ed76651c14756a061d662f580ff4de43b49fa82d80a4b80f8434a",
+            ("SHA3-256", "abc"): "3a985da74fe225b2045c172d6bd390bd855f086e3e9d525b46bfe24511431532",
+            ("SHA3-384", ""): "0c63a75b845e4f7d01107d852e4c2485c51a50aaaa94fc61995e71bbee983a2ac3713831264adb47fb6bd1e058d5f004",
+            ("SHA3-512", ""): "a69f73cca23a9ac5c8b567dc185a756e97c982164fe25859e0d1dcc1475c80a615b2123af1f5f94c11e3e9402c3ac558f500199d95b6d3e301758586281dcd26"}
+    for (f, m), h in PUB3.items():
+        add("sha3", f, {}, {"f": f, "x": lstr(m), "want": lstr(h), "published": True})
+    for f, rate in (("SHA3-224", 144), ("SHA3-256", 136), ("SHA3-384", 104), ("SHA3-512", 72)):
+        lens = ([0, 5, rate - 1, rate] if tier == "quick" else [0, 1, 5, rate - 2, rate - 1, rate, rate + 1, 2 * rate]) + [rnd.randint(2, 200) for _ in range(1 if tier == "quick" else 20)]
+        for n in lens:
+            add("sha3", f, {"out": f'sha3!(.x, variant: "{f}")'}, {"f": f, "x": lb(rb(n)), "published": False})
     XX = {"XXH32": "x32", "XXH64": "x64", "XXH3-64": "x3"}
     for v in list(XX) + ["XXH3-128"]:
         add("xx_vector", f"xxhash({v})", {"out": f'xxhash!(.x, variant: "{v}")'}, {"variant": v, "x": lb(b"")})
